@@ -291,6 +291,8 @@ static int service_port(const char *w, long ns, char *portbuf, size_t n)
     else if (!strcmp(w, "ftp") && (ns & 16)) { port = 21; sp = "tcp"; }
     else if (!strcmp(w, "dns") && (ns & 8)) { port = 53; sp = "udp"; }
     else if (!strcmp(w, "odd") && (ns & 64)) { sp = "sctp"; probe_hit("service_proto_missing"); }
+    else if (!strcmp(w, "amanda") && (ns & 128)) { port = 10080; sp = "udp"; probe_hit("service_with_five_digit_port"); }
+    else if (!strcmp(w, "top") && (ns & 128)) { port = 65535; sp = "tcp"; probe_hit("service_with_five_digit_port"); }
     if (sp && ((!strcmp(sp, "tcp") && (ns & 1)) || (!strcmp(sp, "udp") && (ns & 2)))) {
         snprintf(portbuf, n, "%d", port);
         probe_hit(!strcmp(sp, "tcp") ? "service_found_tcp" : "service_found_udp_only");
@@ -375,6 +377,7 @@ static void exec_c14(const plan_t *p)
     if (ns & 16) simns_add_serv("ftp", "tcp", 21);
     if (ns & 32) simns_add_proto("ip", 0);
     if (ns & 64) simns_add_serv("odd", "sctp", 99);          /* service whose protocol is not in the table */
+    if (ns & 128) { simns_add_serv("amanda", "udp", 10080); simns_add_serv("top", "tcp", 65535); }      /* the widest port numbers there are */
     for (int i = 0; i < p->nops; i++) {
         op_t *o = (op_t *)&p->ops[i];
         char *txt, why[200];
@@ -447,10 +450,10 @@ static void gen_word(rng_t *r, char *out, int lo, int hi, const char *alpha)
 }
 static void gen_c14(plan_t *p, rng_t *r)
 {
-    static const char *protos[] = { "http", "ftp", "tcp", "udp", "ip", "dns", "odd", "unix", "mailto", "x9", "pop3", "file" };
+    static const char *protos[] = { "http", "ftp", "tcp", "udp", "ip", "dns", "odd", "unix", "mailto", "x9", "pop3", "file", "amanda", "top" };
     static const int paints[] = { 0x00, 0xFF, 0xA5, 0x5A, 'a' };
     int nops = rng_range(r, 1, 20 * sim_tier_scale());
-    plan_knob(p, "ns", (long)rng_below(r, 128));
+    plan_knob(p, "ns", (long)rng_below(r, 256));
     plan_knob(p, "alloc.fill", rng_range(r, 0, 4));
     plan_knob(p, "alloc.realloc", rng_range(r, 0, 2));
     for (int i = 0; i < nops; i++) {
@@ -470,7 +473,7 @@ static void gen_c14(plan_t *p, rng_t *r)
                 /* the same shape, assembled through the setters instead of parsed from text */
                 char c[7][64]; long mask = 0; size_t m = 0;
                 static const char *empty = "";
-                snprintf(c[0], 64, "%s", hasproto ? protos[rng_below(r, 12)] : empty);
+                snprintf(c[0], 64, "%s", hasproto ? protos[rng_below(r, 14)] : empty);
                 gen_word(r, c[1], 1, 6, "abcxyz019"); gen_word(r, c[2], 1, 6, "abc019::"); gen_word(r, c[3], 1, 12, "abcxyz019.-");
                 snprintf(c[4], 64, "%u", rng_below(r, 65536));
                 c[5][0] = '/'; gen_word(r, c[5] + 1, 0, 20, "abc/._-@:"); gen_word(r, c[6], 0, 20, "abc=&?/:@ ");
@@ -480,7 +483,7 @@ static void gen_c14(plan_t *p, rng_t *r)
                 op_str(o, txt, m);
                 continue;
             }
-            if (hasproto) n += (size_t)snprintf(txt + n, sizeof(txt) - n, "%s:", protos[rng_below(r, 12)]);
+            if (hasproto) n += (size_t)snprintf(txt + n, sizeof(txt) - n, "%s:", protos[rng_below(r, 14)]);
             if (hashost && (hasproto ? rng_chance(r, 5, 6) : rng_chance(r, 1, 2))) n += (size_t)snprintf(txt + n, sizeof(txt) - n, "//");
             if (hasuser) { gen_word(r, w, 1, 6, "abcxyz019"); n += (size_t)snprintf(txt + n, sizeof(txt) - n, "%s", w); if (haspw) { gen_word(r, w, 1, 6, "abc019::"); n += (size_t)snprintf(txt + n, sizeof(txt) - n, ":%s", w); } n += (size_t)snprintf(txt + n, sizeof(txt) - n, "@"); }
             if (hashost) { gen_word(r, w, 1, 12, "abcxyz019.-"); n += (size_t)snprintf(txt + n, sizeof(txt) - n, "%s", w); if (hasport) n += (size_t)snprintf(txt + n, sizeof(txt) - n, ":%u", rng_below(r, 65536)); }
